@@ -36,7 +36,11 @@ class StubMeasure:
                 w, h = max(w, self.min_leaf), max(h, self.min_leaf)
             if self.swap:
                 w, h = h, w
-            out.append(tex.MeasureBox(w, h, 0))
+            # a TeX box has a height above and a depth below its baseline; what the layout uses is their sum.
+            # The stub splits the drawn overall height (a quarter, a half or nothing below the baseline, by position;
+            # binary fractions, so that height + depth is the drawn value exactly)
+            depth = h * (0.25, 0.5, 0.0)[len(self.texts) % 3]
+            out.append(tex.MeasureBox(w, h - depth, depth))
         return out
 
 
